@@ -385,6 +385,9 @@ func init() {
 		case *NilPtr:
 			return cur
 		case *Term:
+			if u := unwrapCoinsSlice(a); u.Sort == SCoins {
+				return u // NewCoins(c...) of a valid Coins value is that value
+			}
 			if isSliceSort(a.Sort) {
 				// NewCoins() of an empty (nil) argument list is the empty Coins value
 				if a.kind == tCon && len(a.Args) > 0 && a.Args[0].IsLit() && a.Args[0].Lit.Sign() == 0 {
@@ -422,6 +425,7 @@ func init() {
 			}
 			return cur
 		case *Term:
+			a = unwrapCoinsSlice(a)
 			if a.Sort == SCoins {
 				return x.pointwise(st, "coins_add", cur, a, func(p, q *Term) *Term { return Add(p, q) })
 			}
@@ -444,6 +448,7 @@ func init() {
 			}
 			return cur
 		case *Term:
+			a = unwrapCoinsSlice(a)
 			if a.Sort == SCoins {
 				r := x.pointwise(st, "coins_sub", cur, a, func(p, q *Term) *Term { return Sub(p, q) })
 				x.panicSite(f, st, Not(x.allGE(st, cur, a)), "Coins.Sub negative result at "+c.Pos)
@@ -467,6 +472,7 @@ func init() {
 			}
 			return &TupleVal{[]Val{cur, neg}}
 		case *Term:
+			a = unwrapCoinsSlice(a)
 			if a.Sort == SCoins {
 				r := x.pointwise(st, "coins_sub", cur, a, func(p, q *Term) *Term { return Sub(p, q) })
 				return &TupleVal{[]Val{r, Not(x.allGE(st, cur, a))}}
@@ -1055,4 +1061,12 @@ func init() {
 	theory["strconv.FormatFloat"] = func(x *Exec, f *Frame, st *State, c *CallInfo) Val {
 		return UF("format_float", SStr, c.T(0), c.T(1), c.T(2), c.T(3))
 	}
+}
+
+// unwrapCoinsSlice: []Coin(c) for a Coins value c (variadic spreading c...) stands for c itself.
+func unwrapCoinsSlice(t *Term) *Term {
+	if t.kind == tUF && t.Op == "slice_of_coins" && len(t.Args) == 1 {
+		return t.Args[0]
+	}
+	return t
 }
